@@ -80,7 +80,7 @@ def gen_case(streams, tier, avoid):
     vals = {}
     for i in range(nk):
         vals[f"k{i}"] = cfg.choice([["str", "v%d" % i], ["str", ""], ["bytes", "00ff%02x" % i], ["none"], ["obj", i],
-                                    ["str", "é%d" % i]])
+                                    ["str", "é%d" % i], ["str", "cr\r\nlf%d\r" % i]])
     # '.' / '..' segments: only where the store maps paths itself (the fake dbutils would resolve them through the
     # real file system, which says nothing about DBFS)
     paths = _gen_paths(cfg, cfg.randint(2, 6), with_dots=cfg.random() < 0.4 and store != "dbfs")
